@@ -172,8 +172,8 @@ F3_LIST = [
     (8, 0, 0, 8, 1, 0, 14, 64, []),
     (1, 0, 1, 1, 0, 0, 14, 10, [r"new chunk obtained"]),
 ]
-F3_QUICK = {(1, 1, 400, 1, None): ["C01", "C03", "C07", "C08", "C09"], (16, 1, 1, 1, None): ["C04", "C03"], (1, 0, 5, 1, None): ["C09", "C08"],
-            (1, 1, 64, 64, None): ["C04", "C01"], (1, 2, 700, 8, None): ["C18", "C03"], (1, 0, 5, 1, 100): ["C07"]}
+F3_QUICK = {(1, 1, 400, 1, None): ["C01", "C03", "C07", "C08", "C09", "C18"], (16, 1, 1, 1, None): ["C04", "C03"],
+            (4, 0, 300, 2, None): ["C01", "C08", "C09"], (1, 0, 5, 1, 100): ["C07"], (8, 1, 100, 4, None): ["C04"]}
 for (m, k, sz, al, dp, off, uw, lim, ex) in F3_LIST:
     nm = "f3_commit_m%d_k%d_s%d_a%d_d%d" % (m, k, sz, al, dp) + ("" if lim is None else "_l%d" % lim)
     H(nm, "__verif::f3", "F3",
@@ -265,10 +265,6 @@ for nm, m in (("chunk", 1), ("chunk", 8), ("chunk", 16), ("fresh", 1), ("fresh",
       funcs=["Bump::try_alloc_layout", "Bump::set_allocation_limit", "Bump::iter_allocated_chunks", "Bump::reset", "<Bump as Drop>::drop", "Cell::set (monitored)"],
       bounds={"arena_A": "chunk-less" if nm == "fresh" else "one chunk, symbolic geometry (<= 1 KiB)", "arena_B": "chunk-less or one 256-byte chunk (symbolic), any limit",
               "operation_on_A": "one of {try_alloc_layout(any layout), set_allocation_limit(any), iterate, reset, drop}", "threads": "none (sequential footprint only)"})
-
-
-for x in "abcdef":
-    H("x_f3_" + x, "__verif::xp", "X", timeout=600, mem_gb=12)
 
 
 def by_name(n):
